@@ -63,32 +63,52 @@ def _sections(path):
     return out
 
 
-def h_mdoc_ops(env, n=3, remove=(1,), reset=False):
+def h_mdoc_ops(env, n=3, remove=(1,), reset=False, sort_first=False, second=()):
+    """remove_images / kept_images / sort_by_tilt / write in either order.  Positions given to remove_images count the KEPT
+    images in the current table order (kept_only=True), so after a sort they refer to the sorted order."""
     md = env.module("mdoc")
     m, tilts, doses = _mdoc(env, md, n)
-    m.remove_images(list(remove))
-    kept = [i for i in range(n) if i not in remove]
-    flags = [bool(v) for v in m.imgs["Removed"]]
-    env.check("only_requested_images_flagged", _ok(env, flags == [i in remove for i in range(n)]))
-    env.check("kept_images_are_the_others", _ok(env, [int(v) for v in m.kept_images()["ZValue"]] == kept))
-    for i in range(n):
-        r = {c: m.imgs[c].iloc[i] for c in m.imgs.columns}
-        env.check("row_%d_unchanged_by_removal" % i, env.and_(env.eq(r["TiltAngle"], tilts[i]), env.eq(r["ExposureDose"], doses[i]), _ok(env, r["SubFramePath"] == "f%d.tif" % i and int(r["ZValue"]) == i)))
-    m.sort_by_tilt(reset_z_value=reset)
+
+    def current_order():
+        return [int(str(v)[1:-4]) for v in m.imgs["SubFramePath"]]      # which input image sits at each position
+
+    def check_rows(tag):
+        order = current_order()
+        env.check(tag + "_rows_are_a_permutation", _ok(env, sorted(order) == list(range(n))))
+        for p, i in enumerate(order):
+            r = {c: m.imgs[c].iloc[p] for c in m.imgs.columns}
+            env.check("%s_row_%d_carries_its_own_fields" % (tag, p), env.and_(env.eq(r["TiltAngle"], tilts[i]), env.eq(r["ExposureDose"], doses[i]), _ok(env, bool(r["Removed"]) == (i in removed))))
+        return order
+
+    removed = set()
+    if sort_first:
+        m.sort_by_tilt(reset_z_value=reset)
+        order = check_rows("sorted")
+        for p in range(n - 1):
+            env.check("ascending_tilt_%d" % p, env.lt(tilts[order[p]], tilts[order[p + 1]]))
+    for batch in (list(remove), list(second)):
+        if not batch:
+            continue
+        kept_now = [i for i in current_order() if i not in removed]
+        m.remove_images(batch)
+        removed |= {kept_now[p] for p in batch}
+        flags = {i: bool(v) for i, v in zip(current_order(), m.imgs["Removed"])}
+        env.check("only_requested_images_flagged", _ok(env, {i for i, f in flags.items() if f} == removed))
+        env.check("kept_images_are_the_others", _ok(env, [int(str(v)[1:-4]) for v in m.kept_images()["SubFramePath"]] == [i for i in current_order() if i not in removed]))
+        check_rows("after_removal")
+    if not sort_first:
+        m.sort_by_tilt(reset_z_value=reset)
+        order = check_rows("sorted")
+        for p in range(n - 1):
+            env.check("ascending_tilt_%d" % p, env.lt(tilts[order[p]], tilts[order[p + 1]]))
+    order = current_order()
     zs = [int(v) for v in m.imgs["ZValue"]]
-    order = [int(str(v)[1:-4]) for v in m.imgs["SubFramePath"]]          # which input image sits at each position
-    env.check("sorting_is_a_permutation", _ok(env, sorted(order) == list(range(n))))
-    for p in range(n - 1):
-        env.check("ascending_tilt_%d" % p, env.lt(tilts[order[p]], tilts[order[p + 1]]))
-    for p, i in enumerate(order):
-        r = {c: m.imgs[c].iloc[p] for c in m.imgs.columns}
-        env.check("sorted_row_%d_carries_its_own_fields" % p, env.and_(env.eq(r["TiltAngle"], tilts[i]), env.eq(r["ExposureDose"], doses[i]), _ok(env, bool(r["Removed"]) == (i in remove))))
     env.check("z_values", _ok(env, zs == (list(range(n)) if reset else order)))
     p1, p2 = env.real_path("kept.mdoc"), env.real_path("all.mdoc")
     m.write(p1)
     m.write(p2, removed=True)
     exp_all = list(range(n)) if reset else order
-    exp_kept = [z for z, i in zip(exp_all, order) if i not in remove]
+    exp_kept = [z for z, i in zip(exp_all, order) if i not in removed]
     env.check("written_file_omits_exactly_the_removed_images", _ok(env, _sections(p1) == exp_kept))
     env.check("written_file_with_removed_keeps_all", _ok(env, _sections(p2) == exp_all))
     raised = False
@@ -97,6 +117,38 @@ def h_mdoc_ops(env, n=3, remove=(1,), reset=False):
     except FileExistsError:
         raised = True
     env.check("refuses_to_overwrite_by_default", _ok(env, raised))
+
+
+def h_mdoc_file_ops(env):
+    """module-level wrappers on real files: mdoc.remove_images (1- and 0-based indices), sort_mdoc_by_tilt_angles, get_tilt_angles"""
+    md = env.module("mdoc")
+    n = 3 + _pick(env, "n", 2)
+    k = _pick(env, "set", 3)
+    one = _pick(env, "one_based", 2)
+    which = [[0], [1, 2], [n - 1]][_pick(env, "which", 3)]
+    tilts = TILTS[k][:n]
+    lines = ["PixelSpacing = 1.35", "", "[T = demo]", ""]
+    for i in range(n):
+        lines += ["[ZValue = %d]" % i, "TiltAngle = %.2f" % tilts[i], "SubFramePath = f%d.tif" % i, ""]
+    p = env.real_path("ts.mdoc")
+    open(p, "w").write("\n".join(lines))
+    env.check("get_tilt_angles_in_file_order", _ok(env, [round(float(v), 4) for v in md.get_tilt_angles(p)] == tilts))
+    out = env.real_path("removed.mdoc")
+    m = md.remove_images(p, [w + one for w in which], numbered_from_1=bool(one), output_file=out)
+    env.check("wrapper_flags_requested_images", _ok(env, [i for i, f in enumerate(m.imgs["Removed"]) if bool(f)] == which))
+    env.check("wrapper_file_omits_them", _ok(env, _sections(out) == [i for i in range(n) if i not in which]))
+    m2 = md.Mdoc(out)
+    env.check("reread_keeps_their_fields", _ok(env, [str(v) for v in m2.imgs["SubFramePath"]] == ["f%d.tif" % i for i in range(n) if i not in which]))
+    out2 = env.real_path("sorted.mdoc")
+    m3 = md.sort_mdoc_by_tilt_angles(p, reset_z_value=False, output_file=out2)
+    order = sorted(range(n), key=lambda i: tilts[i])
+    env.check("sorted_file_sections_in_tilt_order", _ok(env, _sections(out2) == order))
+    env.check("sorted_file_tilts_ascending", _ok(env, [round(float(v), 4) for v in md.Mdoc(out2).imgs["TiltAngle"]] == sorted(tilts)))
+    # sort, then remove by position in the sorted table, then write: the omitted sections are the ones at those positions
+    m3.remove_images(which)
+    out3 = env.real_path("sorted_removed.mdoc")
+    m3.write(out3)
+    env.check("remove_after_sort_refers_to_sorted_positions", _ok(env, _sections(out3) == [z for p_, z in enumerate(order) if p_ not in which]))
 
 
 # ---- (c) text round trip over a finite grammar ------------------------------------------------------------
@@ -290,9 +342,9 @@ def h_wedge_single(env, n=3, with_ctf=True, with_dose=True):
         env.check("row_%d_pairs_ith_tilt_defocus_exposure_with_tomogram_constants" % i, env.and_(*conds))
 
 
-def h_wedge_batch(env, order="aligned"):
+def h_wedge_batch(env, order="aligned", tomos=(3, 11)):
     wu = env.module("wedgeutils")
-    tomos = [3, 11]
+    tomos = list(tomos)
     tl = {3: [-40.0, 0.5, 38.0], 11: [-20.25, 10.0]}
     d = env.real_path("x")
     base = os.path.dirname(d)
@@ -301,7 +353,7 @@ def h_wedge_batch(env, order="aligned"):
     dims = {t: [env.real("dim%d%s" % (t, a), 1, 5000) for a in "xyz"] for t in tomos}
     zsh = {t: env.real("zs%d" % t, -100, 100) for t in tomos}
     px = env.real("pixel", 0.1, 20)
-    keys = tomos if order == "aligned" else list(reversed(tomos))
+    keys = sorted(tomos) if order == "aligned" else sorted(tomos, reverse=True)
     extra = order == "superset"
     dim_rows = [[float(t)] + dims[t] for t in keys] + ([[99.0, 1.0, 2.0, 3.0]] if extra else [])
     zs_rows = [[float(t), zsh[t]] for t in keys] + ([[99.0, 5.0]] if extra else [])
@@ -333,12 +385,13 @@ def h_wedge_batch(env, order="aligned"):
 
 
 def jobs(tier, seed):
-    j = [("h_mdoc_ops", {"n": 3, "remove": [1]}), ("h_mdoc_ops", {"n": 3, "remove": [0, 2], "reset": True}), ("h_mdoc_roundtrip", {}),
+    j = [("h_mdoc_ops", {"n": 3, "remove": [1]}), ("h_mdoc_ops", {"n": 3, "remove": [0, 2], "reset": True}), ("h_mdoc_ops", {"n": 3, "remove": [0], "sort_first": True, "second": [1]}),
+         ("h_mdoc_ops", {"n": 3, "remove": [2], "sort_first": True, "reset": True}), ("h_mdoc_file_ops", {}), ("h_mdoc_roundtrip", {}),
          ("h_loaders", {"kind": "gctf"}), ("h_loaders", {"kind": "ctffind4"}), ("h_tilt_dose", {"src": "tlt"}), ("h_tilt_dose", {"src": "mdoc"}),
          ("h_wedge_single", {"n": 3}), ("h_wedge_single", {"n": 2, "with_ctf": False}), ("h_wedge_batch", {"order": "aligned"}), ("h_wedge_batch", {"order": "reversed"}),
-         ("h_wedge_batch", {"order": "superset"})]
+         ("h_wedge_batch", {"order": "superset"}), ("h_wedge_batch", {"order": "aligned", "tomos": [11, 3]}), ("h_wedge_batch", {"order": "superset", "tomos": [11, 3]})]
     if tier == "thorough":
-        j += [("h_mdoc_ops", {"n": 4, "remove": [3]}), ("h_mdoc_ops", {"n": 4, "remove": [1, 2], "reset": True}), ("h_wedge_single", {"n": 3, "with_dose": False})]
+        j += [("h_mdoc_ops", {"n": 4, "remove": [3]}), ("h_mdoc_ops", {"n": 4, "remove": [1, 2], "reset": True}), ("h_mdoc_ops", {"n": 4, "remove": [0, 3], "sort_first": True, "second": [0]}), ("h_wedge_single", {"n": 3, "with_dose": False})]
     return j
 
 
